@@ -189,4 +189,3 @@ func TestVerifC19Numeric(t *testing.T) {
 	vhStat("runs", runs)
 	vhDone()
 }
-
